@@ -54,15 +54,32 @@ static void bits_spread(double *data, int n, uint64_t d) {
         __builtin_memcpy(&data[i], &b, 8);
     }
 }
+#ifdef CONTRACT
+/* CONTRACT: the kernel stand-in records the buffer it is handed and returns arbitrary (recorded) finite values: the wrappers'
+   own work - embedding of the input before the transform, extraction and scaling after it - is then decided exactly */
+static double in_re[2 * PN], in_im[2 * PN], out_re[2 * PN], out_im[2 * PN];
+static int kcalls, kwhich;
+static void rec_cells(double *cells, double *in, double *out, int n) {
+    for (int i = 0; i < n; i++) {
+        in[i] = cells[i];
+        double v = nondet_f64(); ASSUME(v > -1048576.0 && v < 1048576.0);
+        out[i] = v; cells[i] = v;
+    }
+}
+#endif
 #if PROC == 0
 /* modular query: the wrappers with the transform replaced by an in-place function of all 2N real and all 2N imaginary cells;
    the transform itself is the subject of h_transform_tables_readonly */
-#if STUB_ON(stub_fft_transform)
+#if STUB_ON(stub_fft_transform) && defined(CONTRACT)
+extern "C" void STUBNAME(fft_transform)(const void *tables, double *real, double *imag) { kcalls++; kwhich = 1; rec_cells(real, in_re, out_re, 2 * PN); rec_cells(imag, in_im, out_im, 2 * PN); }
+#elif STUB_ON(stub_fft_transform)
 extern "C" void STUBNAME(fft_transform)(const void *tables, double *real, double *imag) {
     uint64_t d = bits_fold(1, bits_fold(1, 0, real, 2 * PN), imag, 2 * PN); bits_spread(real, 2 * PN, d); bits_spread(imag, 2 * PN, ~d);
 }
 #endif
-#if STUB_ON(stub_fft_transform_reverse)
+#if STUB_ON(stub_fft_transform_reverse) && defined(CONTRACT)
+extern "C" void STUBNAME(fft_transform_reverse)(const void *tables, double *real, double *imag) { kcalls++; kwhich = 2; rec_cells(real, in_re, out_re, 2 * PN); rec_cells(imag, in_im, out_im, 2 * PN); }
+#elif STUB_ON(stub_fft_transform_reverse)
 extern "C" void STUBNAME(fft_transform_reverse)(const void *tables, double *real, double *imag) {
     uint64_t d = bits_fold(2, bits_fold(2, 0, real, 2 * PN), imag, 2 * PN); bits_spread(real, 2 * PN, d); bits_spread(imag, 2 * PN, ~d);
 }
@@ -72,10 +89,14 @@ extern "C" void STUBNAME(fft_transform_reverse)(const void *tables, double *real
 /* the hand-written assembly kernels are outside the encoding: an in-place transform that reads every input cell and writes
    every output cell (a chain of uninterpreted operations over all n inputs) */
 extern "C" double *fft_table_get_buffer(const void *tables);
-#if STUB_ON(stub_fft)
+#if STUB_ON(stub_fft) && defined(CONTRACT)
+extern "C" void STUBNAME(fft)(const void *tables, double *data) { kcalls++; kwhich = 1; rec_cells(data, in_re, out_re, PN); }
+#elif STUB_ON(stub_fft)
 extern "C" void STUBNAME(fft)(const void *tables, double *data) { bits_spread(data, PN, bits_fold(3, 0, data, PN)); }
 #endif
-#if STUB_ON(stub_ifft)
+#if STUB_ON(stub_ifft) && defined(CONTRACT)
+extern "C" void STUBNAME(ifft)(const void *tables, double *data) { kcalls++; kwhich = 2; rec_cells(data, in_re, out_re, PN); }
+#elif STUB_ON(stub_ifft)
 extern "C" void STUBNAME(ifft)(const void *tables, double *data) { bits_spread(data, PN, bits_fold(4, 0, data, PN)); }
 #endif
 #endif
@@ -161,6 +182,62 @@ HARNESS(h_transform_tables_readonly) {
     CHECK(t->n == (uint64_t) n2 + CANARY && t->bit_reversed == brp && t->trig_tables == trp, "C06 the transform leaves the table header untouched");
     for (int i = 0; i < n2; i++) CHECK(t->bit_reversed[i] == br[i], "C06 the transform leaves the bit-reversal table untouched");
     for (int i = 0; i < ntrig; i++) { uint64_t b; __builtin_memcpy(&b, &t->trig_tables[i], 8); CHECK(b == tr[i], "C06 the transform leaves the trigonometric table untouched"); }
+    symx_witness();
+}
+#endif
+
+#ifdef CONTRACT
+/* what the processor wrappers do around the kernel (guard of assumption A2: the ideal ring back-end stands for "embed, transform,
+ * extract"): nayuki embeds p as the 2N-point anticyclic real sequence (p/2 resp. p*2^-33, then its negation, imaginary part 0)
+ * and returns the odd-index outputs; the direct transform gets the conjugate-symmetric odd-index spectrum and returns
+ * Torus32(int64(re[i]/N*2^32)); spqlios converts the N coefficients to doubles (scale 1 in, 2/N out) and copies. */
+HARNESS(h_wrapper_contract) {
+    Proc p(PN);
+    int32_t a[PN];
+    for (int i = 0; i < PN; i++) a[i] = (int32_t) nondet_u32();
+    static double ind[PN], rd[PN];
+    for (int i = 0; i < PN; i++) { double v = nondet_f64(); ASSUME(v > -1048576.0 && v < 1048576.0); ind[i] = v; rd[i] = 0; }
+    int32_t t[PN];
+    for (int i = 0; i < PN; i++) t[i] = 0;
+    havoc_scratch(p);
+    kcalls = 0;
+#if XFORM == 0
+    p.execute_reverse_int(LAG(rd), a);
+#elif XFORM == 1
+    p.execute_reverse_torus32(LAG(rd), (const Torus32 *) a);
+#else
+    p.execute_direct_torus32((Torus32 *) t, LAG(ind));
+#endif
+    CHECK(kcalls == 1 && kwhich == (XFORM == 2 ? 1 : 2), "C09/A2 exactly one kernel call, of the right direction");
+    symx_observe((uint64_t) (uint32_t) t[0]);
+#if PROC == 0
+    const double sc = XFORM == 0 ? 0.5 : 1.0 / 8589934592.0;
+#if XFORM != 2
+    for (int i = 0; i < PN; i++) {
+        CHECK(in_re[i] == (double) a[i] * sc + CANARY, "C09/A2 nayuki: first half of the transform input is the scaled polynomial");
+        CHECK(in_re[PN + i] == -((double) a[i] * sc), "C09/A2 nayuki: second half is the negation of the first (anticyclic extension), for every coefficient value");
+    }
+    for (int i = 0; i < 2 * PN; i++) CHECK(in_im[i] == 0.0, "C09/A2 nayuki: imaginary input is zero");
+    for (int i = 0; i < PN / 2; i++) CHECK(rd[2 * i] == out_re[2 * i + 1] && rd[2 * i + 1] == out_im[2 * i + 1], "C09/A2 nayuki: the result is the odd-index half of the spectrum");
+#else
+    for (int i = 0; i < PN; i++) CHECK(in_re[2 * i] == 0.0 && in_im[2 * i] == 0.0, "C09/A2 nayuki direct: even-index inputs are zero");
+    for (int i = 0; i < PN / 2; i++) {
+        CHECK(in_re[2 * i + 1] == ind[2 * i] + CANARY && in_im[2 * i + 1] == ind[2 * i + 1], "C09/A2 nayuki direct: odd-index inputs are the Lagrange coefficients");
+        CHECK(in_re[2 * PN - 1 - 2 * i] == ind[2 * i] && in_im[2 * PN - 1 - 2 * i] == -ind[2 * i + 1], "C09/A2 nayuki direct: mirrored inputs are their conjugates");
+    }
+    const double inv = 1.0 / (double) PN;
+    for (int i = 0; i < PN; i++) CHECK(t[i] == (int32_t) (int64_t) (out_re[i] * inv * 4294967296.0), "C09/A2 nayuki direct: result = Torus32(int64(re[i]/N*2^32))");
+#endif
+#else
+#if XFORM != 2
+    for (int i = 0; i < PN; i++) CHECK(in_re[i] == (double) a[i] + CANARY, "C09/A2 spqlios: transform input is the coefficient vector converted to double");
+    for (int i = 0; i < PN; i++) CHECK(rd[i] == out_re[i], "C09/A2 spqlios: the result is the transform output");
+#else
+    const double sc = 2.0 / (double) PN;
+    for (int i = 0; i < PN; i++) CHECK(in_re[i] == ind[i] * sc + CANARY, "C09/A2 spqlios direct: input scaled by 2/N");
+    for (int i = 0; i < PN; i++) CHECK(t[i] == (int32_t) (int64_t) out_re[i], "C09/A2 spqlios direct: result = Torus32(int64(out[i]))");
+#endif
+#endif
     symx_witness();
 }
 #endif
